@@ -65,6 +65,26 @@ M = {
                     let mut matched_blocks = self.peers.matched_blocks().write().expect("poisoned");
 
                     // send more""")]),
+ "c18-skip-capacity-verifier": (VERIFY, "        self.capacity.verify()?;\n", "", ["C18"]),
+ "c18-pool-evicts-newest": (RELAY, "            self.txs.pop_front();", "            self.txs.pop_back();", ["C18"]),
+ "c18-pool-limit-plus-one": (RELAY, "        if self.txs.len() > self.limit {", "        if self.txs.len() > self.limit + 1 {", ["C18"]),
+ "c18-announce-ignores-peer-memory": (RELAY, "                if peers.insert(peer_id.clone()) {", "                if peers.insert(peer_id.clone()) || true {", ["C18"]),
+ "c18-rejected-tx-still-pooled": (SERVICE, """        let cycles = verify_tx(tx.clone(), &self.swc, Arc::clone(&self.consensus))
+            .map_err(|e| Error::invalid_params(format!("invalid transaction: {:?}", e)))?;
+        self.swc
+            .pending_txs()
+            .write()
+            .expect("pending_txs lock is poisoned")
+            .push(tx.clone(), cycles);
+""", """        let result = verify_tx(tx.clone(), &self.swc, Arc::clone(&self.consensus))
+            .map_err(|e| Error::invalid_params(format!("invalid transaction: {:?}", e)));
+        self.swc
+            .pending_txs()
+            .write()
+            .expect("pending_txs lock is poisoned")
+            .push(tx.clone(), result.clone().unwrap_or_default());
+        result?;
+""", ["C18"]),
  "c15-lambda-5": (SAMPLING, "const LAMBDA: u32 = 50;", "const LAMBDA: u32 = 5;", ["C15"]),
  "c15-no-boundary-clamp": (SAMPLING, "        if sample >= self.difficulty_boundary {\n            &self.difficulty_boundary - 1u32\n        } else {\n            sample\n        }", "        sample", ["C15"]),
  "c15-last-n-branch-lt": (LC, "        let content = if last_number - start_number <= last_n_blocks {\n            let last_n_headers = self.storage.get_last_n_headers();", "        let content = if last_number - start_number < last_n_blocks {\n            let last_n_headers = self.storage.get_last_n_headers();", ["C15"]),
